@@ -118,6 +118,16 @@ class FiltersSet:
         if arg in args_using_extensions:
             self.require(args_using_extensions[arg])
 
+    def __require_tag_extension(self, cmd: commands.Command, tag: str):
+        """Include the extension that tag needs when used with cmd, if any."""
+        for argdef in cmd.args_definition:
+            if "tag" not in argdef["type"]:
+                continue
+            if "extension" in argdef and tag in argdef.get("values", []):
+                self.require(argdef["extension"])
+            if tag in argdef.get("extension_values", {}):
+                self.require(argdef["extension_values"][tag])
+
     def __gen_require_command(self) -> Union[commands.Command, None]:
         """Internal method to create a RequireCommand based on requirements
 
@@ -153,7 +163,8 @@ class FiltersSet:
         if tag is None:
             tag = condition[1]
         cmd = commands.get_command_instance("header", parent)
-        cmd.check_next_arg("tag", tag)
+        self.__require_tag_extension(cmd, tag)
+        cmd.check_next_arg("tag", tag, check_extension=False)
         if isinstance(condition[0], list):
             cmd.check_next_arg(
                 "stringlist", [self.__quote_if_necessary(c) for c in condition[0]]
@@ -225,7 +236,8 @@ class FiltersSet:
                     negate = True
                 else:
                     comp_tag = c[1]
-                cmd.check_next_arg("tag", comp_tag)
+                self.__require_tag_extension(cmd, comp_tag)
+                cmd.check_next_arg("tag", comp_tag, check_extension=False)
                 cmd.check_next_arg(
                     "stringlist",
                     "[{}]".format(",".join('"{}"'.format(val) for val in c[2])),
@@ -241,7 +253,8 @@ class FiltersSet:
                     negate = True
                 else:
                     comp_tag = c[1]
-                cmd.check_next_arg("tag", comp_tag)
+                self.__require_tag_extension(cmd, comp_tag)
+                cmd.check_next_arg("tag", comp_tag, check_extension=False)
                 for arg in c[2:]:
                     if isinstance(arg, str):
                         finalarg = self.__quote_if_necessary(arg)
@@ -254,30 +267,33 @@ class FiltersSet:
             elif cname == "body":
                 cmd = commands.get_command_instance("body", ifcontrol, False)
                 self.require(cmd.extension)
-                cmd.check_next_arg("tag", c[1])
+                self.__require_tag_extension(cmd, c[1])
+                cmd.check_next_arg("tag", c[1], check_extension=False)
                 if c[2].startswith(":not"):
                     comp_tag = c[2].replace("not", "")
                     negate = True
                 else:
                     comp_tag = c[2]
-                cmd.check_next_arg("tag", comp_tag)
+                self.__require_tag_extension(cmd, comp_tag)
+                cmd.check_next_arg("tag", comp_tag, check_extension=False)
                 cmd.check_next_arg(
                     "stringlist", "[%s]" % (",".join('"%s"' % val for val in c[3:]))
                 )
             elif cname == "currentdate":
                 cmd = commands.get_command_instance("currentdate", ifcontrol, False)
                 self.require(cmd.extension)
-                cmd.check_next_arg("tag", c[1])
+                self.__require_tag_extension(cmd, c[1])
+                cmd.check_next_arg("tag", c[1], check_extension=False)
                 cmd.check_next_arg("string", self.__quote_if_necessary(c[2]))
                 if c[3].startswith(":not"):
                     comp_tag = c[3].replace("not", "")
                     negate = True
                 else:
                     comp_tag = c[3]
+                self.__require_tag_extension(cmd, comp_tag)
                 cmd.check_next_arg("tag", comp_tag, check_extension=False)
                 next_arg_pos = 4
                 if comp_tag == ":value":
-                    self.require("relational")
                     cmd.check_next_arg(
                         "string", self.__quote_if_necessary(c[next_arg_pos])
                     )
@@ -316,6 +332,7 @@ class FiltersSet:
                     atype = "stringlist"
                 elif arg.startswith(":"):
                     atype = "tag"
+                    self.__require_tag_extension(action, arg)
                 else:
                     atype = "string"
                     arg = self.__quote_if_necessary(arg)
